@@ -80,12 +80,14 @@ Print Assumptions C11_no_partial_data.
 (* the expansion never runs out of fuel: a name and its ".init" alias are the only two names that reach
    one file, and the chain of including files is free of duplicates *)
 Theorem C11_terminates : forall V C H render_o yload t fl,
-  expand_spec V C H render_o yload t (fuel_for t) [[s_topfile]] (map name_of_top_elem fl) <> Err OutOfFuel.
+  expand_spec V C H render_o yload t (fuel_for t) (initial_parents V) (map name_of_top_elem fl) <> Err OutOfFuel.
 Proof.
   intros V C H render_o yload t fl. apply expand_noof.
-  - split; [repeat constructor; intros []|]. exists [s_topfile], []. split; [reflexivity | constructor].
+  - unfold initial_parents. destruct (marker_compared V).
+    + split; [repeat constructor; intros []|]. exists [[s_topfile]], []. repeat split; [cbn; lia | constructor].
+    + split; [constructor|]. exists [], []. repeat split; [cbn; lia | constructor].
   - apply Forall_forall. intros r Hr. apply in_map_iff in Hr as [x [<- _]]. destruct x; discriminate.
-  - unfold fuel_for. cbn [length]. lia.
+  - unfold fuel_for, initial_parents. destruct (marker_compared V); cbn [length]; lia.
 Qed.
 Print Assumptions C11_terminates.
 
@@ -93,10 +95,10 @@ Theorem C11_terminates_model : forall V C H render_o yload t fl oc,
   rerender V = false ->
   (forall text v, yload text = Ok v -> wf v = true) ->
   oc_ok H yload oc ->
-  pfiles V C H render_o yload t (fuel_for t) oc [[s_topfile]] (map name_of_top_elem fl) [] <> Err OutOfFuel.
+  pfiles V C H render_o yload t (fuel_for t) oc (initial_parents V) (map name_of_top_elem fl) [] <> Err OutOfFuel.
 Proof.
   intros V C H render_o yload t fl oc Hr Hy Hoc E.
-  pose proof (pfiles_rel V C H render_o yload t Hr Hy oc Hoc (fuel_for t) [[s_topfile]] (map name_of_top_elem fl) []
+  pose proof (pfiles_rel V C H render_o yload t Hr Hy oc Hoc (fuel_for t) (initial_parents V) (map name_of_top_elem fl) []
                 (nc_ok_nil _ _ _ _ _)) as R.
   rewrite E in R. now apply (C11_terminates V C H render_o yload t fl).
 Qed.
@@ -159,8 +161,37 @@ Theorem C11_covered_cases : forall c, validb c = true -> holds c (run_model c) =
 Proof. intros c H. apply C11_holds. exact H. Qed.
 Print Assumptions C11_covered_cases.
 
+(* ---- before dfdd8ff (finding D25): file names were compared with the marker "top file" that starts the list of parent
+   files, so a data file of that name was reported as an include loop although nothing is cyclic ---- *)
+Definition pre_dfdd8ff : variants := {| tag_after := true; rerender := false; marker_compared := true; empty_raises := false |}.
+Definition T_tf : str := [52]%N.
+Definition case_top_file (V : variants) : case :=
+  {| cV := V; cC := {| allow_empty_top := false; cfg_ml := false; cfg_ms := true; engine_on := false; suffix := s_yaml |};
+     cO := {| o_render := [];
+              o_yload := [([49]%N, Ok (VDict [(VStr (bytes_of_string "*"), VList [VStr s_topfile])]));
+                          (T_tf, Ok (VDict [(VStr (bytes_of_string "t"), VInt 1)]))];
+              o_match := [(bytes_of_string "*", Ok true)] |};
+     cT := [([bytes_of_string "top.yaml"], File [49]%N); ([s_topfile ++ s_yaml], File T_tf)];
+     cPv := [] |}.
+Theorem C11_refuted_D25_top_file_marker :
+  run_model (case_top_file pre_dfdd8ff) = Err RuntimeError /\
+  holds (case_top_file pre_dfdd8ff) (run_model (case_top_file pre_dfdd8ff)) = ["unexpected_error"%string] /\
+  run_model (case_top_file current_variants) = Ok [(VStr (bytes_of_string "t"), VInt 1)] /\
+  holds (case_top_file current_variants) (run_model (case_top_file current_variants)) = [].
+Proof. repeat split; vm_compute; reflexivity. Qed.
+
+(* a real cycle through a file of that name is still a cycle *)
+Example C11_top_file_cycle_still_detected :
+  run_model {| cV := current_variants; cC := cC (case_top_file current_variants);
+               cO := {| o_render := [];
+                        o_yload := [([49]%N, Ok (VDict [(VStr (bytes_of_string "*"), VList [VStr s_topfile])]));
+                                    (T_tf, Ok (VDict [(VStr s_include, VList [VStr s_topfile])]))];
+                        o_match := [(bytes_of_string "*", Ok true)] |};
+               cT := cT (case_top_file current_variants); cPv := [] |} = Err RuntimeError.
+Proof. vm_compute. reflexivity. Qed.
+
 (* ---- before ec4c1d7 (finding D17): files selected, no piece -> ValueError instead of {} ---- *)
-Definition pre_ec4c1d7 : variants := {| tag_after := true; rerender := false; empty_raises := true |}.
+Definition pre_ec4c1d7 : variants := {| tag_after := true; rerender := false; marker_compared := false; empty_raises := true |}.
 Definition cfg0 : config := {| allow_empty_top := false; cfg_ml := false; cfg_ms := true; engine_on := false; suffix := s_yaml |}.
 Definition T_top : str := [49]%N.
 Definition T_a : str := [50]%N.
@@ -174,7 +205,7 @@ Definition case_empty : case :=
      cT := [([bytes_of_string "top.yaml"], File T_top); ([bytes_of_string "a.yaml"], File T_a)];
      cPv := [] |}.
 Theorem C11_refuted_empty_pieces :
-  run_model case_empty = Err ValueError /\ run_spec (cV case_empty) (cC case_empty) (cO case_empty) (cT case_empty) = Ok [] /\
+  run_model case_empty = Err ValueError /\ run_spec (no_marker (cV case_empty)) (cC case_empty) (cO case_empty) (cT case_empty) = Ok [] /\
   holds case_empty (run_model case_empty) = ["empty_piece_list_raises"%string] /\
   holds case_empty (run_model {| cV := current_variants; cC := cC case_empty; cO := cO case_empty; cT := cT case_empty; cPv := [] |}) = [].
 Proof. repeat split; vm_compute; reflexivity. Qed.
